@@ -158,6 +158,9 @@ def _absorb(outdir, s, merged, vios, partial=False):
 def _verdict(prop, pid, tier, seed, cfg, nshards, merged, vios, known, wall, quiet):
     replay_dir = os.path.join(env.VERIF, 'replay', pid)
     os.makedirs(replay_dir, exist_ok=True)
+    for old in os.listdir(replay_dir):          # witnesses of earlier runs of this tier are stale
+        if old.startswith(tier + '-') or old.startswith('known-'):
+            os.remove(os.path.join(replay_dir, old))
     real, knownhits = [], collections.OrderedDict()
     seen_real = collections.Counter()
     for v in sorted(vios, key=lambda v: v['j']):
